@@ -184,3 +184,37 @@ package ch
 //@ loop 2 (f)
 //@   modifies all(c.writer), all(ctx), all(c.conn), all(c.compressor), all(q.Input)
 //@   invariant c.blanks == old(c.blanks) && wRI(c.writer) && len(q.Input) > 0
+
+//@ contract (c *Client) querySettings(q) (r) props(C02)
+//@   requires c != nil
+//@ loop 0 (rangeindex, result)
+//@   invariant -1 <= rangeindex && rangeindex < len(c.settings)
+//@ loop 1 (rangeindex, result)
+//@   invariant -1 <= rangeindex && rangeindex < len(q.Settings)
+
+//@ -- sendQuery: a closed client encodes nothing; otherwise the Query packet is the first thing
+//@ -- staged, external data (if any) follows as one block, and exactly one empty terminator block
+//@ -- ends the external data, last.
+//@ contract (c *Client) sendQuery(ctx, q) (err) props(C02,C04)
+//@   requires c != nil && ctx != nil && wRI(c.writer)
+//@   modifies all(c.writer), all(ctx), all(c.compressor), all(c.conn), c.blanks, c.mux, all(q.ExternalData)
+//@   ensures old(c.closed) ==> err != nil && c.blanks == old(c.blanks) && len(c.writer.buf.Buf) == old(len(c.writer.buf.Buf)) && len(c.writer.vec) == old(len(c.writer.vec)) [C04] {closed-client-encodes-nothing}
+//@   ensures err == nil ==> c.blanks == old(c.blanks) + 1 [C02] {external-data-terminator-exactly-once}
+//@   ensures err != nil ==> c.blanks == old(c.blanks) [C02] {no-terminator-after-a-failure}
+//@   ensures wRI(c.writer)
+//@ callsite (*Client).encode
+//@   assert !c.closed [C04] {nothing-is-encoded-by-a-closed-client}
+//@   assert len(c.writer.buf.Buf) == old(len(c.writer.buf.Buf)) && len(c.writer.vec) == old(len(c.writer.vec)) [C02] {query-packet-is-staged-first}
+//@ callsite (*Client).encodeBlock
+//@   assert len(q.ExternalData) > 0 [C02] {external-data-block-only-when-provided}
+//@ callsite encodeBlankBlock
+//@   assert c.blanks == old(c.blanks) [C02] {terminator-is-the-last-thing-staged}
+
+//@ -- Ping: a closed client rejects the call without touching the connection; otherwise the ping is
+//@ -- flushed before the answer is awaited and only Pong yields success
+//@ contract (c *Client) Ping(ctx) (err) props(C04)
+//@   requires c != nil && ctx != nil && wRI(c.writer)
+//@   modifies all(c.writer), all(ctx), all(c.conn), all(c.reader), c.mux, all(c.tracer)
+//@   ensures old(c.closed) ==> err != nil && c.conn.olen == old(c.conn.olen) && c.conn.closes == old(c.conn.closes) && len(c.writer.buf.Buf) == old(len(c.writer.buf.Buf)) [C04] {closed-client-rejects-without-touching-conn}
+//@ callsite (*Client).packet
+//@   assert len(c.writer.vec) == 0 && len(c.writer.buf.Buf) == 0 [C04] {request-flushed-before-waiting-for-the-answer}
